@@ -61,6 +61,20 @@ func newSharedPacketConn(u muxedPacketConn, refs *atomic.Int32) *sharedPacketCon
 	}
 }
 
+// acquireSharedRef takes a reference on a connection that is already shared, unless its last
+// reference has been released (in which case the connection is being closed).
+func acquireSharedRef(refs *atomic.Int32) bool {
+	for {
+		n := refs.Load()
+		if n <= 0 {
+			return false
+		}
+		if refs.CompareAndSwap(n, n+1) {
+			return true
+		}
+	}
+}
+
 // readContext returns the context to use for a single read, arming the
 // configured read deadline if one is set. cancel is non-nil when the caller
 // must cancel after the read completes.
